@@ -39,7 +39,8 @@ def panic_obligations(prefix):
 
 
 def obligations():
-    return panic_obligations('O14.3') + [
+    import common
+    return common.shared('C12', ['O12.6-td-gate'], 'O14', 'the total-difficulty range check is applied to every sampled proof from a peer with a proved state') + panic_obligations('O14.3') + [
         k('O14.2-kernels', 'tau_kernels', 'check_tau == (s/2^n <= e <= s*2^n); calculate_tau_exponent brackets e; all 256-bit s,e',
           'n <= 3', covers=3),
         k('O14.2-split', 'split_kernels', 'split_epochs groups add up to n and remove_last_epoch drops exactly one, for every n>=2, k<n',
@@ -58,6 +59,8 @@ def obligations():
           'block difficulties < 2^56, epoch lengths < 16', covers=1, weight=6, timeout=3000, mem=20, tiers=('thorough',)),
         k('O14.1-complete-q0', 'complete_n0_q', 'every legal history inside one epoch is accepted by verify_tau and verify_total_difficulty', 'block difficulties < 2^56, epoch lengths < 16, same epoch',
           covers=1, weight=4, timeout=900, mem=8, tiers=('quick',)),
+        k('O14.2-tau-exact', 'vtau_exact_q', 'verify_tau is exact: across n >= 1 switches Ok(b), b == (end epoch difficulty within [start / tau^n, start * tau^n]) with epoch difficulty = block difficulty x '
+          'length of its OWN epoch; a later start epoch is an error; inside one epoch Ok(true) iff the compact targets agree', 'all 16/16/24-bit epoch fields (also ill-formed), <= 3 switches, block difficulties < 2^16', covers=2, weight=5, timeout=700, mem=10),
         k('O14.2-sound-q1s', 'vtd_sound_q1s', 'verify_total_difficulty Ok implies: not decreasing; same epoch => total = d*(delta index); one switch => exact unaligned sum',
           'well-formed ordered epochs (all 16/16/24-bit fields), <=1 switch, block difficulties < 2^8, totals 256-bit', covers=2, weight=7, timeout=700, mem=10, tiers=('quick',)),
         k('O14.1-complete-q1s', 'complete_n1_qs', 'every legal history across exactly one epoch switch is accepted by verify_tau and verify_total_difficulty',
